@@ -75,6 +75,15 @@ class Lang:
         return [i for i, a in enumerate(self.assocs)
                 if self.is_sub(t, a['leftAsset']) or self.is_sub(t, a['rightAsset'])]
 
+    def same_signature_groups(self):
+        """groups of association indices sharing name AND ordered end types (they
+        differ in their fields only): the class-name scheme <name>_<left>_<right>
+        cannot tell them apart (F26)"""
+        groups = {}
+        for i, a in enumerate(self.assocs):
+            groups.setdefault((a['name'], a['leftAsset'], a['rightAsset']), []).append(i)
+        return [g for g in groups.values() if len(g) > 1]
+
     def assoc_class_name(self, i):
         """Name of the generated class for association i (duplicate-named
         associations get <name>_<left>_<right>)."""
